@@ -778,10 +778,13 @@ fn check_cold_twin(res: &mut HRes, live: &Arc<FixtureDatabase>, log: &[(String, 
         })
     };
     // which conftests lost their cache entry (close / eviction)?
+    // documents the scan / the history never indexed and the editor merely looked at: their records exist in the long-lived
+    // index only (workspace-level answers - the unused list, symbols - mention them; no per-document answer does)
+    let opened_only: Vec<&String> = reopened.iter().filter(|f| { let p = root.join(f.as_str()); !cold.file_cache.contains_key(&p) && !cold.file_definitions.contains_key(&p) && !cold.imports.contains_key(&p) }).collect();
     // the index itself (as multisets): queries, closes of unmodified documents and evictions do not add, drop or duplicate records
     {
         let strip = |m: MapSnapT| -> MapSnapT {
-            let keep = |v: Vec<String>| -> Vec<String> { v.into_iter().filter(|l| !l.contains("zz_fill/")).collect() };
+            let keep = |v: Vec<String>| -> Vec<String> { v.into_iter().filter(|l| !l.contains("zz_fill/") && !opened_only.iter().any(|f| l.contains(f.as_str()))).collect() };
             MapSnapT { definitions: keep(m.definitions), file_definitions: keep(m.file_definitions), usages: keep(m.usages), usage_by_fixture: keep(m.usage_by_fixture), imports: keep(m.imports), undeclared: vec![], empties: m.empties }
         };
         let (ml, mc) = (strip(map_snap(live, root)), strip(map_snap(&cold, root)));
@@ -803,6 +806,9 @@ fn check_cold_twin(res: &mut HRes, live: &Arc<FixtureDatabase>, log: &[(String, 
             if reopened.contains(f) {
                 continue;
             }
+        }
+        if key == "unused" && !opened_only.is_empty() {
+            continue;
         }
         // mechanism hints (the root causes of these names are repaired; a returning violation keeps the label)
         let library_file_indexed = live.file_definitions.iter().any(|e| rel(root, e.key()).contains("/otherlib/"));
